@@ -1,6 +1,7 @@
 """Which properties are claimed, at what level, and why the others are not."""
 
 HOOK_COMMITS = []
+FIX_COMMITS = ["5a7ea92", "968480f", "81560c0", "dd9d1dc"]
 
 _PURE = "pure function of its arguments (no storage, stream, clock, retry, schedule or fault in the statement or the anchored code): deciding it means generating inputs, which is not deterministic simulation (DESIGN.md section 6)"
 
@@ -17,6 +18,36 @@ NOT_APPLICABLE = {
 NOT_BUILT = {}
 
 CLAIMED = {
+    "C27": {
+        "level": "fault_enumeration",
+        "text": "For one LockDir operation (create, attempt_lock, unlock, force_break, break_lock) on one generated pre-state (holder none/dead/live/corrupt/empty, lock dir present or not, leftover tmp dirs, steal_dead on/off) every transport operation of the operation is hit, each from a freshly rebuilt identical pre-state: crash with the op dropped, crash with the op applied, torn info write at several fractions including empty, and an injected transport error before the op. After each fault a fresh process must see None / parseable info / LockCorrupt from peek(), acquire directly or after the matching break, release, and leave no held dir; a failed attempt_lock must not leave the caller's nonce in held/info. Enumeration is complete per (operation, pre-state); operations and pre-states are sampled.",
+        "note": "Atomic mkdir/rename/delete with rename-onto-existing failing (memory transport); crash = process stop without loss of applied ops; injected error = op not applied; one recovering process at a time (concurrency is C26); liveness decided by the real Rust code (killed token processes or pids above pid_max).",
+        "technique": "deterministic simulation: per-op crash/torn/error enumeration at the transport seam with pre-state rebuild, fresh-process recovery oracle",
+    },
+    "C28": {
+        "level": "exploration",
+        "text": "Seeded call histories (3-14 calls + environment steps) of lock_read / lock_write(none|valid|bogus token) / unlock / break_lock on CountedLock(recording fake), LockableFiles over a real LockDir, a 2a PackRepository, a BzrBranch, and branch+repository mixed, with competing peers, tokens left in place, virtual-time contention and an error injected at the acquiring rename. A (mode,count,via_token)+lock-directory model predicts for every call the refusal class and the exact physical lock events seen at the transport seam, compares public state and counters after every call, drains the history and proves one clean cycle afterwards. Sampling, not proof.",
+        "note": "Pack repositories take no physical lock for lock_write and LockDir read locks are fake (stated in ASSUMPTIONS, no physical event required there); token locks are neither acquired nor released physically; working trees not covered; peers share the address space.",
+        "technique": "deterministic simulation: model-based history exploration with seam-level observation of physical lock operations",
+    },
+    "C29": {
+        "level": "exploration",
+        "text": "Seeded search over request/response shapes of protocol v1/v2/v3 (args, bodies, readv arrays, request and response streams, errors mid-stream, failures, unknown verbs, real hello/get/readv) encoded and decoded by the real client and server stacks over simulated byte streams, optionally pipelined, under seeded segmentations biased to length prefixes, length-line newlines and message ends; decoded content and the logical read position at each message end are compared with a model. Sampling, not proof.",
+        "note": "v1/v2 args exclude \\x01 and \\n; the client reads one response at a time; socket server flavour uses a stub socket object; body decoders' unused_data checked by direct encoder->decoder drive.",
+        "technique": "deterministic simulation: real smart client/server loops over SimPipe with plan-seeded stream segmentation, model-equality and message-boundary oracles",
+    },
+    "C30": {
+        "level": "exploration",
+        "text": "The C29 workload, one exchange at a time on strict pipes modelling the blocking stdin pipe of `bzr serve --inet` and the client pipe medium; every read size requested by the real server loop and client readers is compared with the bytes left in the current message, and reported completion must coincide with the message end. Sampling, not proof.",
+        "note": "read(n) modelled as exactly-n (BufferedReader) or at-most-n; over-asking counts in both; socket media are out of scope.",
+        "technique": "deterministic simulation: strict SimPipe with knowledge of message boundaries under the real pipe medium loop and client readers",
+    },
+    "C06": {
+        "level": "exploration",
+        "text": "Seeded write-group sessions against 2a and pack-0.92 repositories through the real StreamSource/StreamSink code: insert, optionally withholding one required record, then abort / commit / commit-with-withheld / suspend -> (re-open) -> resume -> fill -> commit or abort, with transport errors injected inside the session; oracles: byte-level invisibility of aborted/suspended groups (revision set, VF key sets, pack-names, packs/ and indices/ listings), refusal of incomplete groups, completeness and model equality after commit, retry after an injected error.",
+        "note": "Leftovers under upload/ are allowed; source repository fault-free; second resume always by a fresh process; two open findings for pack-0.92.",
+        "technique": "deterministic simulation: seeded session histories with error injection at the transport seam, snapshot and model oracles",
+    },
     "C04": {
         "level": "fault_enumeration",
         "text": "Per run a generated pre-state (packs near the autopack threshold, 2a or pack-0.92) and one scenario (commit, pull of k revisions, pack, pack+clean) are fixed; a fault-free pass counts the scenario's mutating store operations, then the scenario is re-executed from the identical pre-state with the process crashed at operation k (dropped / applied / torn tail) - thorough: every k, quick: a seeded sample - and a fresh process checks old-or-new revision set, full readability against the model, check(), and that re-running the scenario and new commits succeed.",
